@@ -98,6 +98,9 @@ structure Sim where
   model : Option State := none     -- the Model is no longer consulted for chain lines
   out : List String := []           -- reversed
   views : List String := []         -- reversed: what each saved FetchUtxoView said when taken
+  bad : List Nat := []              -- blocks found invalid, and what was built on them
+  alltx : List (Tx × Bool) := []    -- every delivered transaction (first definition), coinbase?
+  allblk : List Block := []         -- every delivered block
 
 def Sim.find (s : Sim) (id : Nat) : Option Node := s.nodes.find? (fun n => n.blk.id == id)
 
@@ -136,37 +139,70 @@ def extendOk (cfg : Cfg) : List Block → List Block → Option (List Block)
     if blockOk (!cfg.bip34) cfg.maturity (utxoOf base) (base.length + 1) b then extendOk cfg (base ++ [b]) bs
     else none
 
-def Sim.processBlock (s : Sim) (b : Block) (parent : Nat) : Sim :=
+/-- Index of the first block of `bs` that is not valid on top of `base` extended by its
+predecessors (what the verification phase of a reorganisation finds). -/
+def firstBad (cfg : Cfg) : List Block → List Block → Nat → Option Nat
+  | _, [], _ => none
+  | base, b :: bs, i =>
+    if blockOk (!cfg.bip34) cfg.maturity (utxoOf base) (base.length + 1) b then firstBad cfg (base ++ [b]) bs (i + 1)
+    else some i
+
+/-- What `ProcessBlock` decides for a delivered block. -/
+inductive Plan
+  | rej
+  | side
+  | move (nd : Nat) (attach : List Block) (keep : List Block)   -- detach `nd`, then attach on top of `keep`
+
+/-- Registers the block and decides; blocks found invalid (and their descendants) are remembered:
+anything built on them is rejected. -/
+def Sim.plan (s : Sim) (b : Block) (parent : Nat) : Sim × Plan :=
   let ph := if parent == 0 then some 0 else (s.find parent).map (·.height)
+  let s := { s with known := (blockOutpoints b).foldl (fun k o => insertOp o k) s.known,
+                    alltx := s.alltx ++ ((b.cb, true) :: b.txs.map (fun t => (t, false))),
+                    allblk := s.allblk ++ [b] }
   match ph with
-  | none => s.emit s!"rej:{s.tip}"
+  | none => (s, .rej)
   | some ph =>
-    let s := { s with nodes := s.nodes ++ [(⟨b, parent, ph + 1⟩ : Node)],
-                      known := (blockOutpoints b).foldl (fun k o => insertOp o k) s.known }
+    if s.bad.contains parent then ({ s with bad := b.id :: s.bad }, .rej) else
+    -- context-free sanity failures are refused on any branch, before the block is indexed
+    if hasDupIns b || !idsDistinct b || b.txs.any (fun t => t.ins.isEmpty || t.outs.isEmpty) then
+      ({ s with bad := b.id :: s.bad }, .rej) else
+    let s := { s with nodes := s.nodes ++ [(⟨b, parent, ph + 1⟩ : Node)] }
     if parent == s.tip then
       match extendOk s.cfg s.chain [b] with
-      | none =>
-        -- what a rejected block leaves in the cache: nothing when the sanity checks fail, the
-        -- BIP30 scan when that fails, the scan and the input loads when an input check fails
-        let fs := if hasDupIns b || !idsDistinct b then []
-          else if !bip30Ok (!s.cfg.bip34) (utxoOf s.chain) b then createdOutpoints b
-          else validationFetches (!s.cfg.bip34) b
-        (fs.foldl (fun s o => s.modelStep (.fetch o)) s).emit s!"rej:{s.tip}"
-      | some ch =>
-        let s := { s with chain := ch }
-        (s.modelStep (.connect b (!s.cfg.bip34) s.full)).emit s!"acc:{s.tip}"
-    else if ph + 1 ≤ s.chain.length then s.emit s!"acc:{s.tip}"
+      | none => ({ s with bad := b.id :: s.bad }, .rej)
+      | some _ => (s, .move 0 [b] s.chain)
+    else if ph + 1 ≤ s.chain.length then (s, .side)
     else
       let np := s.path (ph + 2) b.id
       let k := commonPrefix s.chain np
-      match extendOk s.cfg (np.take k) (np.drop k) with
-      | none => s.emit s!"rej:{s.tip}"
-      | some ch =>
-        let nd := s.chain.length - k
-        let s := { s with chain := ch }
-        let s := s.modelStep (.detach nd)
-        let s := (np.drop k).foldl (fun s b => s.modelStep (.attach b s.full)) s
-        s.emit s!"acc:{s.tip}"
+      match firstBad s.cfg (np.take k) (np.drop k) 0 with
+      | some i => ({ s with bad := ((np.drop k).drop i).map (·.id) ++ s.bad }, .rej)
+      | none => (s, .move (s.chain.length - k) (np.drop k) (np.take k))
+
+def Sim.processBlock (s : Sim) (b : Block) (parent : Nat) : Sim :=
+  match s.plan b parent with
+  | (s, .rej) => s.emit s!"rej:{s.tip}"
+  | (s, .side) => s.emit s!"acc:{s.tip}"
+  | (s, .move _ attach keep) =>
+    let s := { s with chain := keep ++ attach }
+    s.emit s!"acc:{s.tip}"
+
+/-- `ProcessBlock` with the process dying right after the `k`-th block (dis)connection of the
+call was committed (k ≥ 1), followed by a start-up with cache size `n`. When the call commits
+fewer than `k` steps nothing dies. -/
+def Sim.processBlockCrash (s : Sim) (k n : Nat) (b : Block) (parent : Nat) : Sim :=
+  match s.plan b parent with
+  | (s, .rej) => s.emit s!"rej:{s.tip}"
+  | (s, .side) => s.emit s!"acc:{s.tip}"
+  | (s, .move nd attach keep) =>
+    if k == 0 || k > nd + attach.length then
+      let s := { s with chain := keep ++ attach }
+      s.emit s!"acc:{s.tip}"
+    else
+      let ch := if k ≤ nd then s.chain.take (s.chain.length - k) else keep ++ attach.take (k - nd)
+      let s := { s with chain := ch, cfg := { s.cfg with cache := n } }
+      s.emit s!"crash:{s.tip}"
 
 def utxoStr (u : UtxoSet) (known : List OutPoint) : String :=
   join "," (known.filterMap (fun o => (u o).map (fun e => s!"{opStr o}:{entryStr e}")))
@@ -195,6 +231,14 @@ def Sim.op (s : Sim) (tok : String) : Option Sim :=
   | 'B' :: rest => do
     let (b, parent) ← parseBlock? (String.ofList rest)
     pure (s.processBlock b parent)
+  | 'K' :: rest =>
+    match (String.ofList rest).splitOn ":" with
+    | [k, n, id, parent, txs] => do
+      let k ← k.toNat?
+      let n ← n.toNat?
+      let (b, parent) ← parseBlock? s!"{id}:{parent}:{txs}"
+      pure (s.processBlockCrash k n b parent)
+    | _ => none
   | ['F', m] => do
     let mode ← parseMode? m
     pure ((s.modelStep (.flush mode s.full false)).emit "ok")
@@ -215,24 +259,18 @@ def Sim.op (s : Sim) (tok : String) : Option Sim :=
     -- FetchSpendJournal of any delivered block: exact for an active block; for an inactive one
     -- the record is absent, which reads as empty when the block spends nothing, else as an error
     let id ← (String.ofList rest).toNat?
-    let n ← s.find id
+    let blk ← s.allblk.find? (fun b => b.id == id)
     let pre := s.chain.takeWhile (fun b => b.id != id)
     if s.chain.any (fun b => b.id == id) then
-      pure (s.emit s!"j={join "," ((journalOf (utxoOf pre) (pre.length + 1) n.blk).map entryStr)}")
-    else if countIns n.blk == 0 then pure (s.emit "j=")
+      pure (s.emit s!"j={join "," ((journalOf (utxoOf pre) (pre.length + 1) blk).map entryStr)}")
+    else if countIns blk == 0 then pure (s.emit "j=")
     else pure (s.emit "err")
   | 'V' :: rest => do
     -- FetchUtxoView of a known transaction: its outputs, then (unless coinbase) its inputs
     let id ← (String.ofList rest).toNat?
-    let asCb := s.nodes.find? (fun n => n.blk.cb.id == id)
-    let asTx := s.nodes.findSome? (fun n => n.blk.txs.find? (fun t => t.id == id))
-    let first := s.nodes.find? (fun n => n.blk.cb.id == id || n.blk.txs.any (fun t => t.id == id))
-    match first with
+    match s.alltx.find? (fun p => p.1.id == id) with
     | none => none
-    | some n =>
-      let (t, cb) := if n.blk.cb.id == id then (n.blk.cb, true)
-        else ((n.blk.txs.find? (fun t => t.id == id)).getD n.blk.cb, false)
-      let _ := asCb; let _ := asTx
+    | some (t, cb) =>
       let ops := txOutpoints t ++ (if cb then [] else t.ins)
       let u := utxoOf s.chain
       let str := s!"{id}:{join "," (ops.map (fun o => match u o with | none => "none" | some e => entryStr e))}"
